@@ -175,13 +175,25 @@ func (g *AuthGen) Run(nOps int) {
 		before := w.FullDump(c)
 		typesBefore := typesOf()
 		var op, res string
-		switch g.r.Intn(5) {
+		sel := g.r.Intn(5)
+		// scripted start: a client is created, upgraded with a consensus state of another client
+		// family (accepted; its status is Unknown from then on) and created again — an existing
+		// client must never be overwritten, whatever its status
+		scripted := i < 3
+		if scripted {
+			sel = 0
+		}
+		switch sel {
 		case 0, 1: // create / upgrade
 			upgrade := g.r.Chance(50)
 			name := names[g.r.Intn(len(names))]
 			auth := signers()
 			valid := g.r.Chance(85)
 			useBsc := g.r.Chance(25)
+			mixed := g.r.Chance(25)
+			if scripted {
+				upgrade, name, auth, valid, useBsc, mixed = i == 1, "otherchain2", govAuthority(), true, false, i == 1
+			}
 			var cs exported.ClientState
 			var cons exported.ConsensusState
 			var h, t, pd uint64
@@ -194,7 +206,7 @@ func (g *AuthGen) Run(nOps int) {
 				cs, cons, h, t, pd = tmState(valid)
 			}
 			consSame := 1
-			if g.r.Chance(25) {
+			if mixed {
 				// mixed payload: client state of one type with a consensus state of the other
 				consSame = 0
 				if useBsc {
@@ -291,6 +303,11 @@ func (g *AuthGen) Run(nOps int) {
 		if res != "ok" && before != after {
 			w.hit("C15", "refused-request-changed-state "+op)
 			w.hit("C19", "refused-request-changed-state "+op)
+		}
+		if f := strings.Fields(op); res == "ok" && f[0] == "m.create" {
+			if _, existed := typesBefore[f[3]]; existed {
+				w.hit("C15", "create-accepted-although-a-client-of-that-chain-exists "+op)
+			}
 		}
 		for n, tb := range typesBefore {
 			if ta := typesOf()[n]; ta != tb {
